@@ -90,6 +90,7 @@ class Sim(object):
         self.case = case
         self.ctx = Ctx()
         self.tmpdir = None
+        self.handed = []
         kind = case.get('cassette', 'memory')
         if kind == 'memory':
             from playback.tape_cassettes.in_memory.in_memory_tape_cassette import InMemoryTapeCassette
@@ -186,7 +187,10 @@ class Sim(object):
             w = e['c']
             if isinstance(w, dict) and 'unser' in w:
                 return Unser()
-            return to_py(w)
+            v = to_py(w)
+            if isinstance(v, (list, dict)):
+                self.handed.append(v)       # what the program hands to the recorder stays the program's to mutate afterwards
+            return v
         if 'v' in e:
             kind, v = env.get(e['v'], ('ret', '<unbound>'))
             if self.case.get('share'):
@@ -547,6 +551,7 @@ class Sim(object):
         handed_out = []          # (run index, Playback): what was handed out must not change when later runs happen
         ctx, tr, spy = self.ctx, self.tr, self.spy
         for run_index, run in enumerate(self.case['runs']):
+            del self.handed[:]       # (only what THIS run's operation handed over is changed after it, see below)
             if self.case.get('fresh_before_last') and run_index == len(self.case['runs']) - 1:
                 self.fresh_recorder()
                 tr = self.tr
@@ -585,6 +590,14 @@ class Sim(object):
                 saved = None
                 recorded_at = None
                 save_ids = [i for k, i in spy.log[log0:] if k == 'save']
+                # the operation is over: its caller goes on using (and changing) the lists / dicts it sent and returned -
+                # what was saved is what they held when the recording was saved
+                for v in self.handed:
+                    if isinstance(v, list):
+                        v.append('<changed after the operation>')
+                    else:
+                        v['<changed after the operation>'] = 1
+                del self.handed[:]
                 if save_ids:
                     try:
                         rec = spy.inner.get_recording(save_ids[0])
